@@ -686,3 +686,58 @@ Example record_converse_ipseckey : converse_example ex_ipseckey_wire 31.
 Proof. exact ipseckey_converse_example. Qed.
 Example record_converse_hip : converse_example ex_hip_wire 38.
 Proof. exact hip_converse_example. Qed.
+
+(* ---- 4. the conditions are exact ----
+   For each of the kinds added here: the packer writes back msg[off:off'] IF AND
+   ONLY IF the condition holds (given room: the cap bounds only exclude the
+   overflow errors). *)
+Theorem nsec_condition_exact :
+  forall (msg : bytes) (off : N) (l : list N) (off' cap : N) (out : bytes),
+    wfb msg -> off <= lenN msg -> lenN msg + 320 <= cap -> lenN out = off ->
+    unpack_nsec msg off = Ok (l, off') ->
+    (pack_nsec l cap (st0 out) = Ok (st0 (out ++ take_at msg off (off' - off))) <->
+     nsec_plain (S (length msg)) msg off).
+Proof. exact nsec_converse_iff. Qed.
+Print Assumptions nsec_condition_exact.
+
+Theorem name_condition_exact :
+  forall (msg : bytes) (off : N) (s : bytes) (o cap : N) (c : bool) (out : bytes),
+    wfb msg -> off <= lenN msg -> unpack_name msg off = Ok (s, o) ->
+    lenN msg + 320 <= cap -> lenN out = off ->
+    (pack_name s cap c (st0 out) = Ok (st0 (out ++ take_at msg off (o - off))) <-> name_plain msg off o).
+Proof. exact name_converse_iff. Qed.
+Print Assumptions name_condition_exact.
+
+Theorem names_condition_exact :
+  forall (msg : bytes) (off : N) (l : list bytes) (off' cap : N) (c : bool) (out : bytes),
+    wfb msg -> off <= lenN msg -> lenN msg + 320 <= cap -> lenN out = off ->
+    unpack_names msg off = Ok (l, off') ->
+    (pack_names l cap c (st0 out) = Ok (st0 (out ++ take_at msg off (off' - off))) <-> names_plain msg off).
+Proof. exact names_converse_iff. Qed.
+Print Assumptions names_condition_exact.
+
+Theorem apl_condition_exact :
+  forall (msg : bytes) (off : N) (l : list (bool * N * bytes)) (off' cap : N) (out : bytes),
+    wfb msg -> off <= lenN msg -> lenN msg <= cap -> lenN out = off ->
+    unpack_apl msg off = Ok (l, off') ->
+    (pack_apl l cap (st0 out) = Ok (st0 (out ++ take_at msg off (off' - off))) <-> Forall apl_masked l).
+Proof. exact apl_converse_iff. Qed.
+Print Assumptions apl_condition_exact.
+
+Theorem options_condition_exact :
+  forall (msg : bytes) (off : N) (l : list (N * bytes * N)) (off' cap : N) (out : bytes),
+    wfb msg -> off <= lenN msg -> lenN msg <= cap -> lenN out = off ->
+    unpack_opts msg off = Ok (l, off') ->
+    (pack_opts l cap (st0 out) = Ok (st0 (out ++ take_at msg off (off' - off))) <->
+     opts_plain (S (length msg)) msg off).
+Proof. exact opts_converse_iff. Qed.
+Print Assumptions options_condition_exact.
+
+Theorem svcb_condition_exact :
+  forall (msg : bytes) (off : N) (l : list (N * bytes * N)) (off' cap : N) (out : bytes),
+    wfb msg -> off <= lenN msg -> lenN msg <= cap -> lenN out = off ->
+    unpack_svcb msg off = Ok (l, off') ->
+    (pack_svcb l cap (st0 out) = Ok (st0 (out ++ take_at msg off (off' - off))) <->
+     svcb_plain (S (length msg)) msg off).
+Proof. exact svcb_converse_iff. Qed.
+Print Assumptions svcb_condition_exact.
